@@ -210,7 +210,8 @@ func (g *GenCfg) genCase(t *rapid.T, prop string) *Case {
 // genDigSpec draws an adversarial digester.
 func genDigSpec(t *rapid.T) *DigSpec {
 	d := &DigSpec{Levels: rapid.IntRange(1, 4).Draw(t, "levels"), Salt: rapid.Uint64Range(0, 1000).Draw(t, "salt")}
-	alphas := []uint64{1, 2, 3, 5, 0}
+	// 50 / 1000: big maps with many small collision groups spread over the tree
+	alphas := []uint64{1, 2, 3, 5, 0, 50, 1000}
 	for i := 0; i < d.Levels; i++ {
 		d.Alpha[i] = rapid.SampledFrom(alphas).Draw(t, "alpha")
 	}
